@@ -243,6 +243,29 @@ pub fn run(maxn: usize) -> (usize, usize, Vec<DFail>) {
             }
             check!("R-FORMUT: for idx in &mut deque = index loop from 0", format!("{:?}", dv), dv.iter().map(|v| v + 1).collect::<Vec<_>>(), a.iter().cloned().collect::<Vec<_>>());
         }
+        // R-RETAIN / R-FMLOOP: the closure is called once per item, front to back; retain keeps exactly the accepted items,
+        // filter_map + collect pushes the Some results in order
+        for n in 0..=maxn.min(6) {
+            for mask in 0u32..(1 << n) {
+                let mut a = v(n);
+                let mut seen = Vec::new();
+                a.retain(|x| {
+                    seen.push(*x);
+                    mask & (1 << *x) != 0
+                });
+                let exp: Vec<u32> = (0..n as u32).filter(|x| mask & (1 << x) != 0).collect();
+                check!("R-RETAIN: imbl retain = predicate on every item in order, flagged items kept", format!("len {} mask {:b}", n, mask), (exp.clone(), (0..n as u32).collect::<Vec<_>>()), (s(&a), seen));
+                let mut seen = Vec::new();
+                let out: Vector<u32> = v(n)
+                    .into_iter()
+                    .filter_map(|x| {
+                        seen.push(x);
+                        if mask & (1 << x) != 0 { Some(x + 100) } else { None }
+                    })
+                    .collect();
+                check!("R-FMLOOP: into_iter().filter_map().collect() = items in order, Some results pushed at the back", format!("len {} mask {:b}", n, mask), (exp.iter().map(|x| x + 100).collect::<Vec<_>>(), (0..n as u32).collect::<Vec<_>>()), (s(&out), seen));
+            }
+        }
         // R-OPTCOMB: the combinators are their match / if forms, the closure runs at most once
         for o in [None, Some(3u32)] {
             let mut calls = 0;
